@@ -89,7 +89,13 @@ def _rw_name_iter(text):
     return re.subn(r'\bfor x in handles \{', 'for x in it: handles {', text)
 
 
+def _rw_name_param(text):
+    # RW13: `fn f<T>(_: &T)` -> `fn f<T>(_x: &T)` (Verus needs named parameters)
+    return re.subn(r'\(_: ', '(_x: ', text)
+
+
 REWRITES = {
+    'RW13': ('fn f(_: &T) -> fn f(_x: &T) (unnamed parameter named; unused either way)', _rw_name_param),
     'RW12': ('for x in handles -> for x in it: handles (Verus syntax naming the ghost iterator; same loop)', _rw_name_iter),
     'RW11': ('for _ in R -> for _i in R (anonymous loop counter named for use in invariants)', _rw_name_loop_var),
     'RW1': ('std::thread::scope(|s| { .. }) -> block with a ghost Scope (assumption T5)', _rw_scope),
@@ -171,6 +177,15 @@ def parse_template(path):
                 parts.append(('block', cur))
                 cur = None
                 target = None
+            elif word == 'like':
+                # reuse every section of an earlier block (same contract for a twin function)
+                import copy
+                src_b = [b for k, b in parts if k == 'block' and b.path[-1] == 'fn ' + rest]
+                if len(src_b) != 1:
+                    raise GenError('%s:%d like: block %s not found' % (path, ln, rest))
+                keep = (cur.kind, cur.file, cur.path, cur.lineno)
+                cur = copy.deepcopy(src_b[0])
+                cur.kind, cur.file, cur.path, cur.lineno = keep
             elif word == 'props':
                 cur.props = [x for x in re.split(r'[,\s]+', rest) if x]
             elif word == 'name':
@@ -427,8 +442,34 @@ def build_fn(block, repo, em):
             em.emit(t)
     pending += body[pos:]
     em.emit(pending)
+    # ---- vacuity twin: same signature and `requires`, body `assert(false)`; it MUST fail to verify
+    req = []
+    mode = None
+    for l in block.sig:
+        st = l.strip()
+        kw = re.match(r'^(requires|ensures|decreases|recommends|no_unwind)\b', st)
+        if kw:
+            mode = kw.group(1)
+            st2 = st[len(mode):].strip()
+            if mode == 'requires' and st2:
+                req.append(st2)
+            continue
+        if mode == 'requires' and st and not st.startswith('//'):
+            m = LABEL_RE.match(l)
+            req.append((m.group(3) if m else st).strip())
+    vac = None
+    if req:
+        vsig = re.sub(r'\bfn\s+(\w+)', lambda m: 'fn vacuity__' + m.group(1), sig, count=1)
+        vsig = re.sub(r'^(\s*)(pub(\s*\([^)]*\))?\s+)?(const\s+)?fn\b', r'\1fn', vsig, count=1)
+        vac0 = em.cur_line()
+        em.emit(vsig)
+        em.emit('    requires')
+        for r_ in req:
+            em.emit('        ' + r_)
+        em.emit('{ assert(false); vstd::pervasive::unreached() }')
+        vac = [vac0, em.cur_line() - 1]
     em.functions.append(dict(name=fn_name, kind='fn', file=block.file, lines=[line0, line1], sha256=sha,
-                             gen_lines=[gen0, em.cur_line() - 1], props=block.props,
+                             gen_lines=[gen0, vac[0] - 1 if vac else em.cur_line() - 1], vacuity_lines=vac, props=block.props,
                              loops=len(lp), has_decreases=any('decreases' in l for ls in list(block.loops.values()) + [block.sig] for l in ls)))
 
 
